@@ -257,7 +257,7 @@ class Run(object):
 
     @staticmethod
     def spelling(d):
-        """the same key, written in different ways (positional / keyword / default): dfn(a, b=0)"""
+        """the same key, written in different ways (positional / keyword / default): dfn(a=1, b=0)"""
         k, sp = d["key"], d.get("spell", 0)
         if sp == 0:
             return (k,), {}
@@ -265,6 +265,10 @@ class Run(object):
             return (k, 0), {}
         if sp == 2:
             return (), {"a": k}
+        if sp == 4 and k == 1:
+            return (), {}                 # every parameter left to its default
+        if sp == 5:
+            return (), {"b": 0, "a": k}
         return (k,), {"b": 0}
 
     def dedup_call(self, t, u):
@@ -375,7 +379,7 @@ class Run(object):
 
         @deduplicate()
         @asynq.asynq()
-        def dfn(a, b=0):
+        def dfn(a=1, b=0):
             run = _tls.run if shared else me_run
             me = _sched.get_active_task()
             t = run.obj_id[id(me)]
@@ -387,7 +391,7 @@ class Run(object):
         class DHolder(object):
             @deduplicate()
             @asynq.asynq()
-            def dm(self, a, b=0):
+            def dm(self, a=1, b=0):
                 run = _tls.run if shared else me_run
                 t = run.obj_id[id(_sched.get_active_task())]
                 return (yield from run._interp(t))
@@ -395,7 +399,7 @@ class Run(object):
             @deduplicate()
             @asynq.asynq()
             @staticmethod
-            def ds(a, b=0):
+            def ds(a=1, b=0):
                 run = _tls.run if shared else me_run
                 t = run.obj_id[id(_sched.get_active_task())]
                 return (yield from run._interp(t))
